@@ -1,7 +1,11 @@
-// extract/c10: regenerates lean/Generated/C10VmLocks.lean from runtime/vm.go.
+// extract/c10: regenerates lean/Generated/C10VmLocks.lean from runtime/vm.go and
+// lean/Generated/C10PathLocks.lean from parser/class_path_manager.go — one fact table
+// per mutex-protected registry on the class / interface / function resolution path
+// (see `registries`); any other struct or package-level variable with a mutex in
+// those packages is reported as a shape fact.
 //
-// For every method of *VM it walks the body in source order, tracking which
-// half of vm.mu is held at each program point (none / RLock / Lock, including
+// For every method of the registry's type it walks the body in source order, tracking which
+// half of the registry's mutex is held at each program point (none / RLock / Lock, including
 // `defer vm.mu.Unlock()`), and records
 //   - every access to one of the registry maps (read: index, range, len;
 //     write: index assignment, delete, any other use) with the lock held there;
@@ -29,8 +33,38 @@ import (
 	"verif/extract/ex"
 )
 
-var maps = map[string]bool{"classMap": true, "interfaceMap": true, "funcMap": true, "constantMap": true,
-	"globalVars": true, "phpFileCache": true, "compiledFiles": true}
+// registry: one mutex-protected structure that name resolution goes through.
+type registry struct {
+	out        string          // generated module: lean/Generated/<out>.lean
+	doc        string          // module doc comment
+	dir, file  string          // package directory and file of the methods
+	typ        string          // receiver type
+	mutex      string          // name of the sync.RWMutex field
+	fields     map[string]bool // guarded fields reached as recv.<field> (maps)
+	nodeType   string          // type of the nodes of the guarded graph ("" = none)
+	nodeFields map[string]bool // guarded fields of nodeType, reached through ANY expression (x.children, x.paths)
+	frozen     map[string]bool // fields that are only assigned in the constructor (read without the lock)
+	ctor       string          // constructor: the value is not shared yet
+	unsync     bool            // report scalar fields assigned with no lock
+}
+
+var registries = []*registry{
+	{out: "C10VmLocks", dir: "runtime", file: "vm.go", typ: "VM", mutex: "mu", ctor: "NewVM", unsync: true,
+		doc: "Lock facts of `runtime/vm.go`: per method of `*VM`, every access to a registry map with\nthe half of `vm.mu` held at that point, and every call made while the lock is held.",
+		fields: map[string]bool{"classMap": true, "interfaceMap": true, "funcMap": true, "constantMap": true,
+			"globalVars": true, "phpFileCache": true, "compiledFiles": true}},
+	{out: "C10PathLocks", dir: "parser", file: "class_path_manager.go", typ: "DefaultClassPathManager", mutex: "mu", ctor: "NewDefaultClassPathManager",
+		doc: "Lock facts of `parser/class_path_manager.go` (the class-path manager every parser clone, VM and TempVM of the\nprocess shares): per method of `*DefaultClassPathManager`, every access to the namespace tree — the `children`\nmap and the `paths` slice of any `NamespaceNode` — with the half of `m.mu` held at that point (helpers such as\n`findNamespaceNode`, which memoises discovered sub-namespaces, inherit the lock of their call sites), and\nevery call made while the lock is held.",
+		fields: map[string]bool{}, nodeType: "NamespaceNode", nodeFields: map[string]bool{"children": true, "paths": true},
+		frozen: map[string]bool{"root": true}},
+}
+
+// packages on the resolution path that are searched for mutexes the translator does not know
+var pathPackages = []string{"parser", "runtime"}
+
+// set for the registry being analysed
+var reg *registry
+var maps map[string]bool
 
 var loaders = map[string]bool{"LoadClass": true, "LoadAndRun": true, "CompileLoad": true, "ParseFile": true,
 	"ParseString": true, "CallAutoLoad": true, "GetOrLoadClass": true, "GetOrLoadInterface": true, "LoadPkg": true,
@@ -79,6 +113,7 @@ type walker struct {
 	shape    []string
 	usesMu   bool
 	deferred bool
+	cur      mode // mode at the expression being walked (for isMap's walk of the node expression)
 	pkgFuncs map[string]bool
 }
 
@@ -97,7 +132,7 @@ func (w *walker) muCall(e ast.Expr) string {
 		return ""
 	}
 	in, ok := s.X.(*ast.SelectorExpr)
-	if !ok || in.Sel.Name != "mu" {
+	if !ok || in.Sel.Name != reg.mutex {
 		return ""
 	}
 	if id, ok := in.X.(*ast.Ident); !ok || id.Name != w.recv {
@@ -110,6 +145,11 @@ func (w *walker) isMap(e ast.Expr) (string, bool) {
 	s, ok := e.(*ast.SelectorExpr)
 	if !ok {
 		return "", false
+	}
+	if reg.nodeFields[s.Sel.Name] {
+		// a field of a node of the guarded graph, whatever expression denotes the node
+		w.expr(s.X, w.cur, false)
+		return s.Sel.Name, true
 	}
 	id, ok := s.X.(*ast.Ident)
 	if !ok || id.Name != w.recv || !maps[s.Sel.Name] {
@@ -141,6 +181,7 @@ func exprString(e ast.Expr) string {
 // expr records the accesses and calls inside an expression evaluated under m.
 // lhs: the expression is the target of an assignment.
 func (w *walker) expr(e ast.Expr, m mode, lhs bool) {
+	w.cur = m
 	switch t := e.(type) {
 	case nil:
 	case *ast.IndexExpr:
@@ -356,6 +397,7 @@ func (w *walker) block(stmts []ast.Stmt, m mode) mode {
 			}
 			sub(s.Body.List, m)
 		case *ast.RangeStmt:
+			w.cur = m
 			if mp, ok := w.isMap(s.X); ok {
 				w.facts = append(w.facts, fact{w.method, mp, "rd", m})
 			} else {
@@ -401,14 +443,85 @@ func (w *walker) block(stmts []ast.Stmt, m mode) mode {
 
 func main() {
 	a := ex.ParseArgs()
+	for _, r := range registries {
+		analyse(a, r)
+	}
+}
+
+// structs and package-level variables of the resolution-path packages that carry a mutex
+func unknownMutexes(repo string) []string {
+	known := map[string]bool{}
+	for _, r := range registries {
+		known[r.dir+"."+r.typ] = true
+	}
+	isMutex := func(e ast.Expr) bool {
+		t := ex.TypeString(e)
+		return t == "sync.Mutex" || t == "sync.RWMutex" || t == "*sync.Mutex" || t == "*sync.RWMutex"
+	}
+	hasMutex := func(st *ast.StructType) bool {
+		for _, f := range st.Fields.List {
+			if isMutex(f.Type) {
+				return true
+			}
+		}
+		return false
+	}
+	var out []string
+	for _, dir := range pathPackages {
+		_, files, err := ex.ParseDir(repo, dir)
+		if err != nil {
+			out = append(out, dir+": package could not be parsed")
+			continue
+		}
+		for name, f := range files {
+			for _, d := range f.Decls {
+				gd, ok := d.(*ast.GenDecl)
+				if !ok {
+					continue
+				}
+				for _, sp := range gd.Specs {
+					switch t := sp.(type) {
+					case *ast.TypeSpec:
+						if st, ok := t.Type.(*ast.StructType); ok && hasMutex(st) && !known[dir+"."+t.Name.Name] {
+							out = append(out, fmt.Sprintf("%s/%s: struct %s has a mutex the translator does not know", dir, name, t.Name.Name))
+						}
+					case *ast.ValueSpec:
+						bad := t.Type != nil && isMutex(t.Type)
+						if st, ok := t.Type.(*ast.StructType); ok && hasMutex(st) {
+							bad = true
+						}
+						for _, v := range t.Values {
+							if cl, ok := v.(*ast.CompositeLit); ok {
+								if st, ok := cl.Type.(*ast.StructType); ok && hasMutex(st) {
+									bad = true
+								}
+							}
+						}
+						if bad && gd.Tok == token.VAR {
+							out = append(out, fmt.Sprintf("%s/%s: package-level variable %s has a mutex the translator does not know", dir, name, t.Names[0].Name))
+						}
+					}
+				}
+			}
+		}
+	}
+	return out
+}
+
+func analyse(a ex.Args, r *registry) {
+	reg, maps = r, r.fields
+	apiFacts = nil
 	var shape []string
-	fset, files, err := ex.ParseDir(a.Repo, "runtime")
-	if err != nil || files["vm.go"] == nil {
-		shape = append(shape, "runtime/vm.go could not be parsed")
+	fset, files, err := ex.ParseDir(a.Repo, r.dir)
+	if err != nil || files[r.file] == nil {
+		shape = append(shape, r.dir+"/"+r.file+" could not be parsed")
 		write(a.Out, nil, nil, shape, nil)
 		return
 	}
 	_ = fset
+	if r.nodeType != "" { // the registry added by the resolution-path generalisation also reports unknown mutexes
+		shape = append(shape, unknownMutexes(a.Repo)...)
+	}
 	pkgFuncs := map[string]bool{}
 	for _, f := range files {
 		for _, d := range f.Decls {
@@ -417,11 +530,11 @@ func main() {
 			}
 		}
 	}
-	// does the struct still look as expected?
-	foundMu := false
-	ast.Inspect(files["vm.go"], func(n ast.Node) bool {
+	// do the structs still look as expected?
+	foundMu, foundNode := false, r.nodeType == ""
+	ast.Inspect(files[r.file], func(n ast.Node) bool {
 		ts, ok := n.(*ast.TypeSpec)
-		if !ok || ts.Name.Name != "VM" {
+		if !ok || (ts.Name.Name != r.typ && ts.Name.Name != r.nodeType) {
 			return true
 		}
 		st, ok := ts.Type.(*ast.StructType)
@@ -434,64 +547,128 @@ func main() {
 				have[n.Name] = ex.TypeString(f.Type)
 			}
 		}
-		foundMu = have["mu"] == "sync.RWMutex"
-		for m := range maps {
-			if !strings.HasPrefix(have[m], "map[") {
-				shape = append(shape, "VM."+m+" is not a map field any more")
+		container := func(t string) bool { return strings.HasPrefix(t, "map[") || strings.HasPrefix(t, "[]") }
+		if ts.Name.Name == r.typ {
+			foundMu = have[r.mutex] == "sync.RWMutex"
+			for m := range maps {
+				if !strings.HasPrefix(have[m], "map[") {
+					shape = append(shape, r.typ+"."+m+" is not a map field any more")
+				}
 			}
-		}
-		for n, t := range have {
-			if strings.HasPrefix(t, "map[") && !maps[n] {
-				shape = append(shape, "VM."+n+" is a map the translator does not know")
+			for n, t := range have {
+				if strings.HasPrefix(t, "map[") && !maps[n] {
+					shape = append(shape, r.typ+"."+n+" is a map the translator does not know")
+				}
+				if r.nodeType != "" && n != r.mutex && !r.frozen[n] && !maps[n] {
+					shape = append(shape, r.typ+"."+n+" is a field the translator does not know")
+				}
+			}
+			for n := range r.frozen {
+				if have[n] == "" {
+					shape = append(shape, r.typ+"."+n+" not found")
+				}
+			}
+		} else {
+			foundNode = true
+			for m := range r.nodeFields {
+				if !container(have[m]) {
+					shape = append(shape, r.nodeType+"."+m+" is not a map / slice field any more")
+				}
+			}
+			for n, t := range have {
+				if (container(t) || strings.HasPrefix(t, "*")) && !r.nodeFields[n] {
+					shape = append(shape, r.nodeType+"."+n+" is a container / pointer field the translator does not know")
+				}
 			}
 		}
 		return false
 	})
 	if !foundMu {
-		shape = append(shape, "VM.mu sync.RWMutex not found")
+		shape = append(shape, r.typ+"."+r.mutex+" sync.RWMutex not found")
+	}
+	if !foundNode {
+		shape = append(shape, "type "+r.nodeType+" not found")
 	}
 
-	// walk every *VM method of vm.go; entry mode none first
+	// walk every method of the type in its file; entry mode none first
 	type meth struct {
 		fd   *ast.FuncDecl
 		recv string
 	}
+	isMethod := func(fd *ast.FuncDecl) bool {
+		return fd.Recv != nil && len(fd.Recv.List) == 1 && strings.TrimPrefix(ex.TypeString(fd.Recv.List[0].Type), "*") == r.typ
+	}
 	var methods []meth
-	for _, d := range files["vm.go"].Decls {
+	for _, d := range files[r.file].Decls {
 		fd, ok := d.(*ast.FuncDecl)
 		if !ok || fd.Recv == nil || fd.Body == nil || len(fd.Recv.List) != 1 {
 			continue
 		}
-		if strings.TrimPrefix(ex.TypeString(fd.Recv.List[0].Type), "*") != "VM" {
+		if !isMethod(fd) {
 			continue
 		}
-		r := "_"
+		rc := "_"
 		if len(fd.Recv.List[0].Names) == 1 {
-			r = fd.Recv.List[0].Names[0].Name
+			rc = fd.Recv.List[0].Names[0].Name
 		}
-		methods = append(methods, meth{fd, r})
+		methods = append(methods, meth{fd, rc})
 	}
-	// maps touched outside vm.go's *VM methods?
+	// guarded fields touched outside the methods of the type in its file?
 	for name, f := range files {
 		ast.Inspect(f, func(n ast.Node) bool {
-			if fd, ok := n.(*ast.FuncDecl); ok && name == "vm.go" && fd.Recv != nil &&
-				strings.TrimPrefix(ex.TypeString(fd.Recv.List[0].Type), "*") == "VM" {
+			if fd, ok := n.(*ast.FuncDecl); ok && name == r.file && fd.Recv != nil && isMethod(fd) {
 				return false
 			}
-			if fd, ok := n.(*ast.FuncDecl); ok && name == "vm.go" && fd.Name.Name == "NewVM" {
-				return false // construction: the VM is not shared yet
+			if fd, ok := n.(*ast.FuncDecl); ok && name == r.file && fd.Name.Name == r.ctor {
+				return false // construction: the value is not shared yet
 			}
-			if s, ok := n.(*ast.SelectorExpr); ok && maps[s.Sel.Name] {
-				shape = append(shape, fmt.Sprintf("%s: registry map %s used outside the *VM methods of vm.go", name, s.Sel.Name))
+			if s, ok := n.(*ast.SelectorExpr); ok && (maps[s.Sel.Name] || (r.nodeFields[s.Sel.Name] && name == r.file)) {
+				shape = append(shape, fmt.Sprintf("%s: registry map %s used outside the *%s methods of %s", name, s.Sel.Name, r.typ, r.file))
 			}
 			return true
 		})
+	}
+	// node fields in other files of the package: only a selector on a value of the node type can
+	// mean the guarded field; without type information any `.children` / `.paths` selector is reported
+	if r.nodeType != "" {
+		for name, f := range files {
+			if name == r.file {
+				continue
+			}
+			ast.Inspect(f, func(n ast.Node) bool {
+				switch t := n.(type) {
+				case *ast.Ident:
+					if t.Name == r.nodeType {
+						shape = append(shape, fmt.Sprintf("%s: type %s used outside %s", name, r.nodeType, r.file))
+					}
+				}
+				return true
+			})
+		}
+		// frozen fields assigned after construction
+		for _, m := range methods {
+			ast.Inspect(m.fd.Body, func(n ast.Node) bool {
+				if as, ok := n.(*ast.AssignStmt); ok {
+					for _, l := range as.Lhs {
+						if se, ok := l.(*ast.SelectorExpr); ok && r.frozen[se.Sel.Name] {
+							shape = append(shape, m.fd.Name.Name+": assigns "+r.typ+"."+se.Sel.Name+" after construction")
+						}
+					}
+				}
+				if u, ok := n.(*ast.UnaryExpr); ok && u.Op == token.AND {
+					if se, ok := u.X.(*ast.SelectorExpr); ok && r.frozen[se.Sel.Name] {
+						shape = append(shape, m.fd.Name.Name+": takes the address of "+r.typ+"."+se.Sel.Name)
+					}
+				}
+				return true
+			})
+		}
 	}
 	walk := func(m meth, entry mode) *walker {
 		w := &walker{recv: m.recv, method: m.fd.Name.Name, pkgFuncs: pkgFuncs}
 		out := w.block(m.fd.Body.List, entry)
 		if out != entry && !w.deferred {
-			w.shape = append(w.shape, w.method+": returns with vm.mu in a different state")
+			w.shape = append(w.shape, w.method+": returns with "+m.recv+"."+r.mutex+" in a different state")
 		}
 		return w
 	}
@@ -499,7 +676,7 @@ func main() {
 	for _, m := range methods {
 		first[m.fd.Name.Name] = walk(m, mNone)
 	}
-	// methods that take vm.mu, directly or through other *VM methods
+	// methods that take the mutex, directly or through other methods of the type
 	locks := map[string]bool{}
 	for n, w := range first {
 		if w.usesMu {
@@ -532,7 +709,7 @@ func main() {
 			if !ok {
 				return true
 			}
-			if s, ok := c.Fun.(*ast.SelectorExpr); ok && helper(s.Sel.Name) && name != "vm.go" {
+			if s, ok := c.Fun.(*ast.SelectorExpr); ok && helper(s.Sel.Name) && name != r.file {
 				callers[s.Sel.Name] = -1 << 20 // called from another file: no lock known
 			}
 			return true
@@ -581,8 +758,8 @@ func main() {
 			}
 		}
 	}
-	// facts attributed to the entry points: a method's own accesses plus those of the *VM
-	// methods it calls (transitively), each with the lock mode recorded at the access site
+	// facts attributed to the entry points: a method's own accesses plus those of the methods of
+	// the type it calls (transitively), each with the lock mode recorded at the access site
 	own := map[string][]fact{}
 	callees := map[string][]string{}
 	for _, m := range methods {
@@ -625,24 +802,26 @@ func main() {
 	}
 	// unsynchronised scalar fields written by methods (reported, not part of the obligation)
 	var unsync []string
-	for _, m := range methods {
-		ast.Inspect(m.fd.Body, func(n ast.Node) bool {
-			var tgt ast.Expr
-			switch s := n.(type) {
-			case *ast.IncDecStmt:
-				tgt = s.X
-			case *ast.AssignStmt:
-				if len(s.Lhs) == 1 {
-					tgt = s.Lhs[0]
+	if r.unsync {
+		for _, m := range methods {
+			ast.Inspect(m.fd.Body, func(n ast.Node) bool {
+				var tgt ast.Expr
+				switch s := n.(type) {
+				case *ast.IncDecStmt:
+					tgt = s.X
+				case *ast.AssignStmt:
+					if len(s.Lhs) == 1 {
+						tgt = s.Lhs[0]
+					}
 				}
-			}
-			if se, ok := tgt.(*ast.SelectorExpr); ok {
-				if id, ok := se.X.(*ast.Ident); ok && id.Name == m.recv && !maps[se.Sel.Name] {
-					unsync = append(unsync, m.fd.Name.Name+":"+se.Sel.Name)
+				if se, ok := tgt.(*ast.SelectorExpr); ok {
+					if id, ok := se.X.(*ast.Ident); ok && id.Name == m.recv && !maps[se.Sel.Name] {
+						unsync = append(unsync, m.fd.Name.Name+":"+se.Sel.Name)
+					}
 				}
-			}
-			return true
-		})
+				return true
+			})
+		}
 	}
 	write(a.Out, facts, held, shape, func(c call) string { return classify(c) }, unsync...)
 }
@@ -651,7 +830,7 @@ var apiFacts []fact
 
 func write(out string, facts []fact, held []call, shape []string, classify func(call) string, unsync ...string) {
 	var sb strings.Builder
-	sb.WriteString("import Model.RW\n/-! Lock facts of `runtime/vm.go`: per method of `*VM`, every access to a registry map with\nthe half of `vm.mu` held at that point, and every call made while the lock is held. -/\nnamespace Generated.C10VmLocks\nopen Model.RW\n\n")
+	sb.WriteString("import Model.RW\n/-! " + reg.doc + " -/\nnamespace Generated." + reg.out + "\nopen Model.RW\n\n")
 	sb.WriteString("def facts : List Fact := [\n")
 	seen := map[fact]bool{}
 	var fl []string
@@ -663,7 +842,7 @@ func write(out string, facts []fact, held []call, shape []string, classify func(
 		fl = append(fl, fmt.Sprintf("  ⟨%s, %s, .%s, %s⟩", ex.LeanString(f.method), ex.LeanString(f.mp), f.kind, f.held.lean()))
 	}
 	sb.WriteString(strings.Join(fl, ",\n"))
-	sb.WriteString("\n]\n\n/-- the same accesses attributed to the entry point through which they are reached\n(own accesses plus those of the `*VM` methods it calls, transitively) -/\ndef apiFacts : List Fact := [\n")
+	sb.WriteString("\n]\n\n/-- the same accesses attributed to the entry point through which they are reached\n(own accesses plus those of the `*" + reg.typ + "` methods it calls, transitively) -/\ndef apiFacts : List Fact := [\n")
 	seenA := map[fact]bool{}
 	var al []string
 	for _, f := range apiFacts {
@@ -697,21 +876,25 @@ func write(out string, facts []fact, held []call, shape []string, classify func(
 		prev = s
 	}
 	sb.WriteString(strings.Join(sl, ", "))
-	sb.WriteString("]\n\n/-- fields of `VM` assigned by its methods with no lock (reported only) -/\ndef unsyncFields : List String := [")
-	sort.Strings(unsync)
-	var ul []string
-	prev = ""
-	for _, s := range unsync {
-		if s != prev {
-			ul = append(ul, ex.LeanString(s))
+	sb.WriteString("]\n")
+	if reg.unsync {
+		sb.WriteString("\n/-- fields of `" + reg.typ + "` assigned by its methods with no lock (reported only) -/\ndef unsyncFields : List String := [")
+		sort.Strings(unsync)
+		var ul []string
+		prev = ""
+		for _, s := range unsync {
+			if s != prev {
+				ul = append(ul, ex.LeanString(s))
+			}
+			prev = s
 		}
-		prev = s
+		sb.WriteString(strings.Join(ul, ", "))
+		sb.WriteString("]\n")
 	}
-	sb.WriteString(strings.Join(ul, ", "))
-	sb.WriteString("]\n\nend Generated.C10VmLocks\n")
-	if err := ex.WriteIfChanged(out, "C10VmLocks.lean", sb.String()); err != nil {
+	sb.WriteString("\nend Generated." + reg.out + "\n")
+	if err := ex.WriteIfChanged(out, reg.out+".lean", sb.String()); err != nil {
 		fmt.Fprintln(os.Stderr, err)
 		os.Exit(1)
 	}
-	fmt.Printf("C10VmLocks: %d facts, %d calls under lock, %d shape notes\n", len(fl), len(cl), len(sl))
+	fmt.Printf("%s: %d facts, %d calls under lock, %d shape notes\n", reg.out, len(fl), len(cl), len(sl))
 }
